@@ -654,6 +654,38 @@ func runC12(c *mon.Ctx) {
 		desc := map[string]any{"requests": kinds, "key_states(db|f1|f2)": states, "fetchers": len(fs), "f1_fails": f1.fail, "f2_fails": f2.fail}
 		runKeyRing(c, "batch", desc, reqs, db, false, fs, nowMs, true)
 	}
+	// directed: the database knows neither key; the first fetcher answers for server A only, the second is therefore
+	// asked for B's key and, answering, also volunteers a record for A's key that does not vouch for the message (another
+	// key, stale, expired): what the first fetcher supplied stays in force
+	if c.Shard == 0 {
+		for _, vol := range []string{"wrong-key", "stale-not-covering", "expired-before-ts"} {
+			for _, order := range [][2]string{{"a.example", "b.example:8448"}, {"b.example:8448", "a.example"}} {
+				for _, strict := range []bool{true, false} {
+					ts := base + 500
+					f1 := &fetcherScript{name: "f1", answers: map[keyReq]krec{}, extras: map[keyReq]krec{}}
+					f2 := &fetcherScript{name: "f2", answers: map[keyReq]krec{}, extras: map[keyReq]krec{}}
+					ka, kb := keyReq{ServerName: "a.example", KeyID: "ed25519:k1"}, keyReq{ServerName: "b.example:8448", KeyID: "ed25519:k1"}
+					if rec, ok := w.rec("a.example", "ed25519:k1", "current", ts, nowMs); ok {
+						f1.answers[ka] = rec
+					}
+					if rec, ok := w.rec("b.example:8448", "ed25519:k1", "current", ts, nowMs); ok {
+						f2.answers[kb] = rec
+					}
+					if rec, ok := w.rec("a.example", "ed25519:k1", vol, ts, nowMs); ok {
+						f2.extras[ka] = rec
+					}
+					var reqs []kreq
+					for _, s := range order {
+						q := w.message(r, s, []string{"ed25519:k1"}, "")
+						q.ts, q.strict = ts, strict
+						reqs = append(reqs, q)
+					}
+					desc := map[string]any{"requests": order, "first_fetcher": "a.example/ed25519:k1 current", "second_fetcher": "b.example:8448/ed25519:k1 current, volunteers a.example/ed25519:k1 " + vol, "strict": strict}
+					runKeyRing(c, "batch-second-fetcher-volunteers", desc, reqs, map[keyReq]krec{}, false, []*fetcherScript{f1, f2}, nowMs, true)
+				}
+			}
+		}
+	}
 	c.Floor("model_says_true", 100)
 	c.Floor("model_says_false", 100)
 	c12KeyResponses(c, w, r)
